@@ -24,6 +24,7 @@ func TestMakeExemplars(t *testing.T) {
 		"sublist-membership-near-failure":               {N: big, FailGap: 0, FailNear: true, Stages: []St{{Name: "map", A: 1}}, Consumer: St{Name: "containsAll", A: 4}},
 		"top-read-ahead-item-fails":                     {N: big, FailGap: 0, FailNear: true, Stages: []St{{Name: "iir"}}, Consumer: St{Name: "topSum", A: 7}},
 		"single-on-many-items-is-decided-by-the-second": {N: big, FailGap: -1, Stages: []St{{Name: "accept", A: 2, B: 0}}, Consumer: St{Name: "singleMany"}},
+		"cross-runs-its-second-operand-lazily-per-row":  {N: 7, FailGap: -1, CrossRows: 3, Consumer: St{Name: "indexWhere", A: 100}, Stages: []St{{Name: "skip", A: 8}}},
 		"unconsumed-let":                                {N: big, FailGap: -1, Stages: []St{{Name: "accept", A: 2, B: 0}, {Name: "top", A: 5}}, Consumer: St{Name: "first"}, Unused: "let"},
 		"unconsumed-returned":                           {N: 1000, FailGap: -1, Stages: []St{{Name: "map", A: 1}, {Name: "skip", A: 3}}, Consumer: St{Name: "first"}, Unused: "return"},
 	}
